@@ -12,7 +12,7 @@ claim("C11", "other",
   "constant-table extraction from SSA + exhaustive table lint", "DESIGN.md section 3 C11")
 
 claim("C12", "translation_validation",
-  "The three generated Go files are validated byte for byte against the translation of cmd/licenses.json and cmd/exceptions.json under the generator's own template, which is extracted statically from the SSA of package cmd on every run; the compiled tables are compared with the JSON projections; all ~740 ids are linted for disjointness, fold-uniqueness and scannability. A stale table, a hand edit, a flipped filter, a changed header or output path all differ.",
+  "The three generated Go files are validated byte for byte against the translation of cmd/licenses.json and cmd/exceptions.json under the generator's own template, which is extracted statically from the SSA of package cmd on every run; the compiled tables are compared with the JSON projections; all ~740 ids are linted for disjointness, fold-uniqueness and scannability. A stale table, a hand edit, a flipped filter, a changed header or output path all differ. L7: each exported accessor returns a fresh copy, never the slice the lookups read.",
   "Trusts go/ssa, the checker's mirror of encoding/json field matching, and that the generator writes only through os.WriteFile with constant paths (anything else is reported undecided, i.e. as a violation).",
   "static template extraction + translation validation against JSON data", "DESIGN.md section 3 C12")
 
@@ -53,11 +53,11 @@ claim("C04", "other",
 
 claim("C05", "other",
   "Narrow necessary conditions of 'the accepted language is the SPDX grammar': scanner/parser operator and token-role tables agree (G1, G3), keyword order (G2), every buffer rewrite keeps all unread input and every cursor advance covers only matched text (G4, linear entailment under inferred cursor invariants), acceptance only at end of input (G5), consumption implies error or progress (G6, abstract interpretation with a symbolic cursor), every listed id is readable (G7), precedence layering and parenthesis transparency (P1).",
-  "G8/G8p: one '+' per license atom, decided by evaluating the extracted lookup plan on X++ for every listed id, and the parser's '+' probe is independent of the token's text. Language equality itself is NOT decided (e.g. which interleavings of WITH, ':' are accepted). No recogniser is extracted and run.",
+  "G8/G8p: one '+' per license atom, decided by evaluating the extracted lookup plan on X++ for every listed id, and the parser's '+' probe is independent of the token's text. G9: no error is recorded by the scanner on a path behind a successful lookup/normalisation (a listed id is never rejected afterwards). Language equality itself is NOT decided (e.g. which interleavings of WITH, ':' are accepted). No recogniser is extracted and run.",
   "writer/reader table agreement + linear entailment on cursor arithmetic + abstract interpretation of the token cursor", "DESIGN.md section 3 C05")
 
 claim("C09", "other",
-  "Table clauses exhaustive over all listed ids (fold-uniqueness under the exact relation strings.EqualFold implements; no id has a case variant beginning with a scanner keyword), code clauses by provenance (the lookup folds and returns list spelling; only list spelling reaches tokens and node fields; later comparisons are between canonical strings).",
+  "Table clauses exhaustive over all listed ids (fold-uniqueness under the exact relation strings.EqualFold implements; no id has a case variant beginning with a scanner keyword), code clauses by provenance (the lookup folds and returns list spelling; only list spelling reaches tokens and node fields; later comparisons are between canonical strings; K5: behind a successful lookup/normalisation no scanner branch mentions the raw id text).",
   "Operators, reference prefixes and -only/-or-later suffixes are matched case-sensitively by construction and are outside the property. Output casing relies on C06 E3.",
   "exhaustive table lint + provenance of token and node text", "DESIGN.md section 3 C09")
 
@@ -72,7 +72,7 @@ claim("C08", "other",
   "decision-list extraction from SSA + exhaustive evaluation over constant tables", "DESIGN.md section 3 C08")
 
 claim("C14", "other",
-  "Narrow necessary conditions for 'no exponential family': no multiplicative recurrence inside a recursive cycle (C1), no recursive result computed twice on one path (C2), no re-traversal of a subtree by two members of one cycle of the resolved call graph (C2b), no left recursion in the token parser (C3), no cursor restore across a recursive production (C5). The cross product in expandAnd/appendTerms violates C1 on the current tree and is a recorded known finding; any other product or a second instance is still reported.",
+  "Narrow necessary conditions for 'no exponential family': no multiplicative recurrence inside a recursive cycle (C1), no recursive result computed twice on one path (C2), no re-traversal of a subtree by two members of one cycle of the resolved call graph (C2b), no left recursion in the token parser (C3), no cursor restore across a recursive production (C5), no allocation inside a recursive cycle of the expansion sized by an unconditional multiple (>= 2x) of an input size or capacity (C6). The cross product in expandAnd/appendTerms violates C1 on the current tree and is a recorded known finding; any other product or a second instance is still reported.",
   "A polynomial bound itself (loop bounds over runtime sizes, allocation volume) is NOT decided; scanner progress per iteration is not decided. Loop-nest degrees are reported as information only.",
   "recurrence-shape analysis over the call graph (product loops x recursive results) + left-recursion check", "DESIGN.md section 3 C14")
 
